@@ -285,7 +285,7 @@ def segment_level(ck, rnd, n):
     ARCS = [(0j, 40 + 15j, 30, False, True, 50 + 20j), (10 + 0j, 8 + 30j, -70, True, False, 5 + 5j)]
     done = 0
     for scipy_on in (False, True):
-        old = sppath._quad_available
+        old = getattr(sppath, '_quad_available', None)     # (the module's scipy switch; None: no such switch any more - one configuration only)
         sppath._quad_available = scipy_on and old
         try:
             for hi_, hist in enumerate(cases[:n]):
@@ -403,7 +403,7 @@ def directed_histories(ck):
     """histories that random walks hit too rarely: (1) accurate query, a mutation that brings in an unmeasured curve, a loose length request, default queries;
     (2) paths that come from a d-string with Z and are then opened by a mutation, serialised under every option"""
     import itertools
-    old = sppath._quad_available
+    old = getattr(sppath, '_quad_available', None)     # (the module's scipy switch; None: no such switch any more - one configuration only)
     for scipy_on in (True, False):
         sppath._quad_available = scipy_on and old
         try:
@@ -591,7 +591,7 @@ def run(ck):
     def cfg(ops, pool, maxlen=3):
         return ('SPECIFICATION Spec\nCONSTANTS MaxLen = %d\n MaxOps = %d\n Pool <- %s\n Pts <- Pts2\n Variant = "correct"\nINVARIANT Dump\n'
                 % (maxlen, ops, pool))
-    old = sppath._quad_available
+    old = getattr(sppath, '_quad_available', None)     # (the module's scipy switch; None: no such switch any more - one configuration only)
     try:
         # exhaustive small configuration
         ck.tlc('PathSeq', cfg(2, 'Pool2'), workers=1, coverage=False, on_case=on_case, timeout=3000)
